@@ -605,9 +605,15 @@ class MetadataManager:
             return None
         if not text:
             return None
-        if text.isdigit():
-            # Legacy format: plain version number -> legacy filename
-            return int(text), f"v{text}.metadata.json"
+        if text.isascii() and text.isdigit():
+            # Legacy format: plain version number -> legacy filename.
+            # (str.isdigit() alone also accepts characters int() rejects - superscript
+            # or circled digits - and int() refuses very long digit strings; either
+            # way the hint is just unparseable garbage, not an error.)
+            try:
+                return int(text), f"v{text}.metadata.json"
+            except ValueError:
+                return None
         m = _METADATA_FILE_RE.match(text)
         if m:
             return int(m.group(1)), text
